@@ -87,6 +87,11 @@ def correspond(ctx, scale):
         L.append(('rsimvq', lambda: ResidualSimVQ(dim=4, num_quantizers=3, codebook_size=6, quantize_dropout=True), 4, None))
         L.append(('fsq', lambda: FSQ([8, 5, 3]), 3, None))
         L.append(('lfq', lambda: LFQ(codebook_size=8, dim=3), 3, None))
+        # degenerate extents: ONE bit per code (a [2, 1] codebook: transposes and size-1 axes are 'contiguous' views of the buffer itself), sub-sampled entropy
+        L.append(('lfq', lambda: LFQ(codebook_size=2, dim=3, frac_per_sample_entropy=0.5), 3, None))
+        L.append(('lfq', lambda: LFQ(codebook_size=2, num_codebooks=2, dim=2, frac_per_sample_entropy=0.25), 2, None))
+        L.append(('rlfq', lambda: ResidualLFQ(dim=1, codebook_size=2, num_quantizers=2, frac_per_sample_entropy=0.5), 1, None))
+        L.append(('fsq', lambda: FSQ([2]), 1, None))
         return L
 
     reps = (2 if not ctx.thorough else 10) * scale
